@@ -3428,10 +3428,12 @@ class HasTraits(CHasTraits, metaclass=MetaHasTraits):
             return
 
         # Otherwise the local copy of the delegate value was deleted, restore
-        # the delegate listener (unless it's already there):
-        if name not in dict:
+        # the delegate listener (unless it's already there, or the trait was
+        # declared with 'listenable=False' and never had one):
+        listener_traits = self.__class__.__listener_traits__
+        if (name not in dict) and (name in listener_traits):
             self._init_trait_delegate_listener(
-                name, 0, self.__class__.__listener_traits__[name][1]
+                name, 0, listener_traits[name][1]
             )
 
     def _init_trait_observers(self):
